@@ -171,7 +171,12 @@ def classify_any(ogp, term, modP, h):
     """classify an `any` over module.entry_points by its behaviour on model entry points: 'A' = some entry point's result type is h,
     'B' = some entry point has an argument of type h, None otherwise (the extracted condition is evaluated, not pattern-matched)"""
     import engine_skel as K
-    if not (term[0] == 'any' and term[1][0] == 'star' and term[1][1] == ('f', modP, 'entry_points')):
+    mentions_eps = []
+    E.walk(term, lambda x: mentions_eps.append(1) if x == ('f', modP, 'entry_points') else None)
+    is_any = term[0] == 'any' and term[1][0] == 'star' and term[1][1] == ('f', modP, 'entry_points')
+    # membership of h in a set / list collected from the entry points (precomputed `entry_inputs.contains(&ty)`)
+    is_member = term[0] == 'mcall' and term[2] == 'contains' and term[3] == [h] and bool(mentions_eps) and term[1][0] != 'new'
+    if not (is_any or is_member):
         return None
 
     def entry(result_ty, arg_tys):
@@ -210,7 +215,7 @@ def predicate_and_atoms(ogp, st, modP, elem, h):
         if k:
             atoms.setdefault(k, x)
             return False
-        if x[0] == 'mcall' and x[2] == 'contains' and x[3] == [h]:
+        if x[0] == 'mcall' and x[2] == 'contains' and x[3] == [h] and x[1][0] == 'new':
             atoms.setdefault('C', x)
             return False
         if x[0] == 'is' and x[1] == inner and x[2].endswith('TypeInner::Struct'):
